@@ -812,7 +812,9 @@ class _FastUnmarshaller:
             if PYTHON3:
                 c = chr(c)
             self.bufpos += 1
-            return _load_dispatch[c](self)
+            # Go through the instance so that a caller can override an
+            # entry for one unmarshaller without changing the shared table.
+            return self.dispatch[c](self)
         except KeyError:
             exception = ValueError(
                 "bad marshal code at position %d: %c" % (self.bufpos - 1, c)
